@@ -651,6 +651,9 @@ pub(crate) mod repr {
     #[rustversion::since(1.64)]
     impl<'a> TypedReprRef<'a> {
         pub(super) const fn is_multiple_of_dword(self, divisor: DoubleWord) -> bool {
+            if divisor == 0 {
+                panic_divide_by_0()
+            }
             use crate::primitive::extend_word;
             if let Some(w) = shrink_dword(divisor) {
                 match self {
